@@ -938,3 +938,8 @@ func (tb *TB) select0(a, i *Term) *Term {
 	}
 	return tb.selectRaw(a, i)
 }
+
+func (tb *TB) nextID() int {
+	tb.next++
+	return tb.next
+}
